@@ -1954,8 +1954,10 @@ func (c *HostClient) connsCleaner() {
 }
 
 func (c *HostClient) CloseConn(cc *clientConn) {
-	c.decConnsCount()
+	// Close the connection before giving its slot away: otherwise a new
+	// connection may be dialed while this one is still open, exceeding MaxConns.
 	cc.c.Close()
+	c.decConnsCount()
 	releaseClientConn(cc)
 }
 
